@@ -28,11 +28,11 @@ func init() {
 	core.Register(&core.Prop{
 		ID:    "C13",
 		Level: "exploration",
-		Rule: "case = sketch in a reachable state (both variants, any store and mapping kind) receiving refused calls: Add/AddWithCount with NaN, +-Inf, +-MaxFloat64, +-nextafter(MaxIndexable,inf), negative weights (-1, -2^-20), quantiles q in {NaN, -2^-1074, nextafter(1,2), +-Inf, -1, 2} single and batch and on empty sketches (also sketches whose every weight underflowed to zero, count 0: quantile queries refused), MergeWith of a sketch with another kind/alpha/offset, Reweight(0), Reweight(-w); " +
+		Rule: "case = sketch in a reachable state (both variants, any store and mapping kind) receiving refused calls: Add/AddWithCount with NaN, +-Inf, +-MaxFloat64, +-nextafter(MaxIndexable,inf), negative weights (-1, -2^-20), quantiles q in {NaN, -2^-1074, nextafter(1,2), +-Inf, -1, 2} single and batch and on empty sketches (also sketches whose every weight underflowed to zero, count 0: quantile queries refused), MergeWith of a sketch with another kind/alpha/offset (also very coarse mappings, bases 1e3..1e15), Reweight(0), Reweight(-w) on the sketch and on its stores; " +
 			"oracle: documented sentinel error (either when two rules apply), full observation identical before/after; valid boundary inputs (+-MaxIndexable, its inner neighbours, -0, weight 0 and -0) accepted; constructors over finite parameters return an error or a usable object, never (nil,nil). " +
 			"Non-trivial = non-empty sketch state and >=10 refused calls; distinct = hash of state and calls.",
 		Cases:     core.Scale(40000, 1000000),
-		Mandatory: []string{"oracle.refused_calls", "oracle.state_unchanged", "oracle.accepted_boundary", "oracle.constructor_checks", "refused.nan_quantile", "refused.zero_weight_invalid_value_exact", "refused.merge_mismatch", "refused.merge_mismatch_empty_argument", "constructor.tiny_accuracy", "state.all_weights_underflowed"},
+		Mandatory: []string{"oracle.refused_calls", "oracle.state_unchanged", "oracle.accepted_boundary", "oracle.constructor_checks", "refused.nan_quantile", "refused.zero_weight_invalid_value_exact", "refused.merge_mismatch", "refused.merge_mismatch_empty_argument", "constructor.tiny_accuracy", "state.all_weights_underflowed", "refused.merge_mismatch_coarse_mappings", "refused.store_level_reweight"},
 		Run:       runC13,
 	})
 }
@@ -696,6 +696,45 @@ func runC13(c *core.Ctx) {
 		expect(name, call(name, func() error { return s.MergeWith(other) }))
 		if d := ob.Diff(mon.Observe(other, nil)); d != "" {
 			c.Failf("refused_merge_changed_argument", "the argument of a refused merge changed: %s", d)
+		}
+	}
+	// very coarse mappings (bases from 1e3 to 1e15, accuracy within 1e-15 of one): still different mappings when
+	// their bases differ by a percent or more, and merging them is refused like any other mismatch
+	if r.P(0.3) {
+		kind := r.Intn(3)
+		g1 := r.LogUniform(1e3, 1e15)
+		g2 := g1 * r.LogUniform(1.01, 1e3)
+		if r.Bool() {
+			g1, g2 = g2, g1
+		}
+		ma, ea := gen.NewMapGamma(kind, g1, 0)
+		mb, eb := gen.NewMapGamma(kind, g2, 0)
+		if ea == nil && eb == nil {
+			a := mon.NewSketch(exact, ma.M, gen.RandPlainStore(r))
+			b := mon.NewSketch(exact, mb.M, gen.RandPlainStore(r))
+			c.Guard("coarse sketches", func() {
+				if r.P(0.7) {
+					a.I().Add(ma.ClampIn(2))
+				}
+				b.I().Add(mb.ClampIn(5))
+				b.I().Add(-mb.ClampIn(0.5))
+			})
+			oa, ob := mon.Observe(a, nil), mon.Observe(b, nil)
+			name := "MergeWith(sketch of a very coarse mapping with another base)"
+			c.Count("refused.merge_mismatch_coarse_mappings", 1)
+			err := call(name, func() error { return a.MergeWith(b) })
+			refused++
+			c.Count("oracle.refused_calls", 1)
+			c.Logf("refused call %s (bases %v and %v) -> %v", name, g1, g2, err)
+			if err == nil {
+				c.Failf("accepted_invalid:"+name, "%s returned no error (bases %v and %v, kind %d)", name, g1, g2, kind)
+			}
+			if d := oa.Diff(mon.Observe(a, nil)); d != "" {
+				c.Failf("refused_call_changed_state:"+name, "the receiver of a refused merge changed: %s", d)
+			}
+			if d := ob.Diff(mon.Observe(b, nil)); d != "" {
+				c.Failf("refused_merge_changed_argument", "the argument of a refused merge changed: %s", d)
+			}
 		}
 	}
 	if c.Failed() {
